@@ -97,6 +97,21 @@ def run_shard(shard, out_base):
         # make sure letters occur where the structure allows them
         bases.append(R.make_iban(cc, gen.random_bban(spec, rng, "letters")))
         extra = [R.make_iban(cc, gen.random_bban(spec, rng, "letters")) for _ in range(12)]
+        # bases around bank codes the registry lists - under this country and under countries that share its
+        # structure (their codes are ordinary digits here, but the library may recognise them)
+        from vf.props.c12 import build_iban_around  # noqa: PLC0415
+        from vf.ref import lookup  # noqa: PLC0415
+
+        by_cc: dict = {}
+        for (c_, k_) in lookup.by_key():
+            by_cc.setdefault(c_, []).append(k_)
+        twins_ = [o_ for o_ in sorted(table) if o_ != cc and table[o_]["bban_spec"] == spec["bban_spec"] and by_cc.get(o_)]
+        for o_ in [cc] * bool(by_cc.get(cc)) + rng.sample(twins_, min(2, len(twins_))):
+            for k_ in rng.sample(sorted(by_cc[o_]), min(2 if shard["tier"] == "quick" else 12, len(by_cc[o_]))):
+                t_ = build_iban_around(o_, k_, table, rng)
+                if t_ and R.matches_spec(spec["bban_spec"], t_[4:]):
+                    bases.append(R.make_iban(cc, t_[4:]))
+                    mon.tally("bases_around_listed_bank_codes")
         for b in bases:
             o = observe(S.IBAN, b)
             if not o.ok:
